@@ -792,3 +792,38 @@ Theorem C13_with_data_refines_partial : forall gs gb biome len dat pat,
   refines (Model.C12.pc_with_data (cf_of gs gb biome) len dat pat) (with_data gs gb biome len dat pat).
 Proof. exact with_data_refines. Qed.
 Print Assumptions C13_with_data_refines_partial.
+
+(* ==================== LAST WAVE: the write-side palette loops ==================== *)
+From GoMC Require Import Proofs.C13_skel_palette_w.
+(* writeStatesPalette / writeBiomesPalette: per exported palette entry StateList[v] (out of range = panic), ID(),
+   Encode then Decode of the properties (which cannot fail on a registry block: hypotheses) / MarshalText (invalid
+   type = error); then the copy of the raw longs.  st_name_of is the registry function st_name of the save theorems
+   decomposed into these calls. *)
+Theorem C13_write_states_translated :
+  forall (Bk : Type) (state_list : Z -> option Bk) (id_of : Bk -> list N) (encode : Bk -> option (list N))
+         (decode : list N -> option (N * list N)),
+  (forall b, exists e, encode b = Some e) -> (forall b e, encode b = Some e -> exists p, decode e = Some p) ->
+  forall (pal : list Z) (raw : list N),
+  match opt_all (map (st_name_of Bk state_list id_of encode decode) pal) with
+  | None => SPanic pOOB
+  | Some bp => SOk (bp, raw)
+  end =
+  match map_loop (ws_iter Bk state_list id_of encode decode) pal with
+  | SOk bp => SOk (bp, raw)
+  | SErr => SErr
+  | SPanic w => SPanic w
+  end.
+Proof. exact write_states_interp. Qed.
+Theorem C13_write_biomes_translated : forall (bio_name : Z -> option (list N)) (pal : list Z) (raw : list N),
+  match opt_all (map bio_name pal) with
+  | None => SErr
+  | Some bp => SOk (bp, raw)
+  end =
+  match map_loop (wb_iter bio_name) pal with
+  | SOk bp => SOk (bp, raw)
+  | SErr => SErr
+  | SPanic w => SPanic w
+  end.
+Proof. exact write_biomes_interp. Qed.
+Print Assumptions C13_write_states_translated.
+Print Assumptions C13_write_biomes_translated.
